@@ -503,6 +503,30 @@ static void case_kde(Rng& rng, uint64_t index)
 		data[N / 2].weight = std::max(data[N / 2].weight, 1.0);
 	}
 	double bw = rng.coin(0.5) ? 0.0 : W * rng.loguni(0.02, 0.5);
+	// a window at a large common offset (time stamps, energies next to a line): mean / spread of the sample up to 1e9, automatic bandwidth included (seeded
+	// change C07-r7m3 computed the sample variance as <x^2> - <x>^2)
+	if(index % 7 == 3)
+	{
+		double off = rng.sign() * rng.loguni(1e4, 1e9);
+		for(auto& d : data)
+			d.value += off;
+		x0 += off, x1 = x0 + W;
+		for(auto& d : data)
+			d.value = std::min(std::max(d.value, x0 - 0.3 * W), x1 + 0.3 * W);
+		W = x1 - x0;
+	}
+	// a window next to the sample rather than around it: every event lies 8 to 30 bandwidths beyond one end of the window, whose estimate is then the
+	// tail of the kernels - tiny, but a density that normalises like any other (seeded change C07-r7m2 skipped kernels more than 8 bandwidths away)
+	if(index % 11 == 5)
+	{
+		bw = W * rng.loguni(0.02, 0.2);
+		bool above = rng.coin();
+		for(auto& d : data)
+		{
+			double far = bw * rng.uni(8.5, 30.0);
+			d.value	   = above ? x1 + far : x0 - far;
+		}
+	}
 	set_params(J().str("family", "kde").i("N", N).d("x_min", x0).d("x_max", x1).d("bandwidth", bw).i("shape", shape));
 	hash_param(x0), hash_param(W), hash_param(bw), hash_param(data[0].value), hash_param_u(N);
 	mark_nontrivial();
